@@ -34,11 +34,23 @@ impl<'a> DashSplit<'a> {
     { unimplemented!() }
 }
 
-// R15: S.split('-')
-#[verifier::external_body]
-pub fn split_dash<'a>(s: &'a str) -> (r: DashSplit<'a>)
-    ensures r.fields() == dash_fields(s@), r.pos() == 0, dash_fields(s@).len() >= 1,
-{ unimplemented!() }
+// R15: S.M('-') for M in {split, split_terminator}: the method name is captured from the code and
+// resolved here; any other splitting method is an unsupported construct (undecided, exit 2).
+pub struct DashIter;
+impl DashIter {
+    #[verifier::external_body]
+    pub fn split<'a>(s: &'a str) -> (r: DashSplit<'a>)
+        ensures r.fields() == dash_fields(s@), r.pos() == 0, dash_fields(s@).len() >= 1,
+    { unimplemented!() }
+
+    // std: "Equivalent to split, except that the trailing substring is skipped if empty."
+    #[verifier::external_body]
+    pub fn split_terminator<'a>(s: &'a str) -> (r: DashSplit<'a>)
+        ensures
+            r.pos() == 0, dash_fields(s@).len() >= 1,
+            r.fields() == (if dash_fields(s@).last().len() == 0 { dash_fields(s@).drop_last() } else { dash_fields(s@) }),
+    { unimplemented!() }
+}
 
 pub open spec fn fits(s: Seq<char>, max: nat) -> bool {
     hexval(s) is Some && hexval(s)->Some_0 <= max
